@@ -4,7 +4,8 @@ Spec : Bind.tla KeyBytes: the single component's encoding, or for a composite ke
        components, in partition key order, of (2-byte big-endian length ++ bytes ++ 0x00) - the same definition C30's
        routing keys are checked against; TLC also proves that an independent reader of the composite layout
        (SplitComposite) gets the components back.
-TLC  : enumerates models with 1..MMaxPk partition key columns over the type alphabet MTypes x two values per type
+TLC  : enumerates models with 1..MMaxPk partition key columns over the type alphabet MTypes x two or three values per type
+       (always an ordinary one and the one that is present but falsy in Python: 0, False, '', b'')
        x the mapper operations MOps x the application history MOrders (which models were defined and used first:
        those keyed by the base column classes Integer / Text, or those keyed by their subclasses).
 Bind : for every case a real cqlengine Model class is built, the operation is run through the public mapper API
@@ -23,12 +24,13 @@ META = {
                  "mapper operations; each case is executed through the public cqlengine API against a recording session and the "
                  "attached SimpleStatement.routing_key compared",
     "level": "model_checking",
-    "level_text": "Exhaustive over models with 1-3 partition key columns (every list of types from the bounded alphabet, two values "
-                  "per type incl. negative numbers, False, multi-byte strings) and 11 mapper operations that fix the whole partition "
+    "level_text": "Exhaustive over models with 1-3 partition key columns (every list of types from the bounded alphabet, two or three values "
+                  "per type: an ordinary one, the falsy-but-present one (0, False, '', b''), in thorough a negative int / longer string) and 11 mapper operations that fix the whole partition "
                   "key (query-set get/count/iteration/update/delete incl. TTL and IF EXISTS, Model.create, instance save/update/"
                   "delete); every statement reaching session.execute is captured and its routing key must be the definition's bytes.",
     "level_note": "ONLY the bounded type alphabet is covered: Integer, Text, BigInt, UUID (quick) plus Boolean, SmallInt, TinyInt, "
-                  "Ascii, Blob and empty text / blob components (thorough). Every case is run in two application histories "
+                  "Ascii, Blob and a third value (negative int, longer text / blob) (thorough). Every type has an ordinary value and "
+                  "the value that is present but falsy in Python (0, False, '', b''; a uuid has none). Every case is run in two application histories "
                   "(models keyed by the base column classes defined and used first / models keyed by their subclasses first), "
                   "each in a freshly imported cqlengine whose column and model classes are then shared by all cases. Key-capable types whose encoding is calendar / wide-number arithmetic (DateTime, Date, "
                   "Time, Decimal, VarInt, Float, Double, Inet, TimeUUID) and frozen collections / UDTs are NOT covered; component "
@@ -160,16 +162,21 @@ def compare(env, st):
     return None
 
 
+def falsy(case, i):
+    """Bind.tla Falsy: component i is fixed to a value that is present but falsy in Python (0, False, '', b'')."""
+    return case["tys"][i] != "uuid" and case["vals"][i]["i"] == 0 and len(case["vals"][i]["s"]) == 0
+
+
 def run(ctx):
     types = {"int", "text", "bigint", "uuid"} if ctx.quick else \
             {"int", "text", "bigint", "boolean", "uuid", "smallint", "tinyint", "ascii", "blob"}
     consts = {"MaxCols": 1, "MaxPk": 0, "PVs": {4}, "NVals": 1, "NTextVals": 1, "Partial": False, "MTypes": types, "MMaxPk": 3,
-              "MOps": set(OPS), "MOrders": set(ORDERS), "MEmpty": not ctx.quick, "MLayouts": set(LAYOUTS), "MLayoutMaxPk": 2}
+              "MOps": set(OPS), "MOrders": set(ORDERS), "MFull": not ctx.quick, "MLayouts": set(LAYOUTS), "MLayoutMaxPk": 2}
     cfg = tlc.write_cfg(os.path.join(ctx.scratch, "mapper.cfg"), init="MapperInit", constants=consts,
                         invariants=["MapperKeyIsComposite"], deadlock=False)
     res, states = tlc.enumerate_states("Bind", cfg, ctx.scratch, timeout=900 if ctx.quick else 3000)
     ctx.add_tlc(res, "exhaustive (MapperInit)")
-    ctx.note("constants", {"MTypes": sorted(types), "MMaxPk": 3, "MOps": OPS, "MOrders": ORDERS, "MEmpty": not ctx.quick,
+    ctx.note("constants", {"MTypes": sorted(types), "MMaxPk": 3, "MOps": OPS, "MOrders": ORDERS, "MFull": not ctx.quick,
                            "MLayouts": LAYOUTS, "MLayoutMaxPk": 2})
     ctx.note("exhaustive", True)
     if res.violation:
@@ -179,10 +186,12 @@ def run(ctx):
     if not any(len(s["case"]["tys"]) == 3 for s in states) or not any(len(s["case"]["tys"]) == 1 for s in states) or \
             {s["case"]["op"] for s in states} != set(OPS) or {s["case"]["order"] for s in states} != set(ORDERS) or \
             not any(s["case"]["order"] == "base_first" and "int" in s["case"]["tys"] and "bigint" in s["case"]["tys"] for s in states) or \
+            not any(len(s["case"]["tys"]) == 1 and falsy(s["case"], 0) for s in states) or \
+            not any(len(s["case"]["tys"]) >= 2 and falsy(s["case"], 0) and not falsy(s["case"], 1) for s in states) or \
             not any(s["case"]["layout"] == "clustering_first" and s["case"]["ckty"] != s["case"]["tys"][0] for s in states) or \
             not any(s["case"]["layout"] == "clustering_between" and s["case"]["ckty"] != s["case"]["tys"][1] for s in states):
         raise tlc.MachineryError("vacuity: single / composite keys, some operation, some definition order or a key mixing "
-                                 "Integer with a subclass or a clustering column declared before / between the partition key columns "
+                                 "Integer with a subclass, falsy-but-present key values (single and composite) or a clustering column declared before / between the partition key columns "
                                  "not enumerated")
     by_signature = {}
     n = 0
